@@ -117,6 +117,11 @@ def configs(tier):
         for c1i in range(len(C1_SPECS)):
             for c2i in range(len(C2_SPECS)):
                 out.append(dict(kind='prog', c0=((DEFAULT,), {}), c1=c1i, c2=c2i, ev=ev))
+    # shortcuts referenced by particular kinds of consumers only (explicit Not blocks, filters,
+    # other shortcuts' targets ...): generic structure check over all blocks of the circuit
+    for users in SHORTCUT_USERS:
+        for order in ('users-first', 'target-first'):
+            out.append(dict(kind='shortcut', users=users, order=order))
     out += [dict(kind='invalid', cls=c) for c in INVALID]
     out += [dict(kind='frozen', path=p) for p in ('explicit', 'implicit', 'explicit+run', 'after-stop')]
     return out
@@ -183,7 +188,11 @@ def build(cfg):
         f1 = edzed.IfOutput(ref)
         f2 = edzed.DataEdit.add_output('k', ref).add_output('k2', sref)
         f3 = edzed.NotIfInitialized(sref)
-        b.filters = [('ifoutput', f1, ctl_name), ('add_output', f2, ctl_name), ('notifinit', f3, 's1')]
+        # the same data key used twice in one chain, with the first value moved away in between
+        s0ref = {'name': 's0', 'obj': b.s[0], 'not': 's0'}[style]
+        f4 = edzed.DataEdit.add_output('tmp', s0ref).rename('tmp', 'first').add_output('tmp', sref)
+        b.filters = [('ifoutput', f1, ctl_name), ('add_output', f2, ctl_name), ('notifinit', f3, 's1'),
+                     ('add_output2', f4, 's1')]
         evs = [(edzed.Event('sink', 'put', efilter=[never, f1, f2, f3]), 'sink')]
     else:
         evs = []
@@ -323,6 +332,9 @@ def check_filters(b, circuit, viol, label):
         elif kind == 'add_output':
             ok = isinstance(res, dict) and res.get('k') == blk.output and \
                 res.get('k2') == circuit.findblock('s1').output
+        elif kind == 'add_output2':
+            ok = isinstance(res, dict) and res.get('first') == circuit.findblock('s0').output and \
+                res.get('tmp') == blk.output and res.get('first') != res.get('tmp')
         else:
             ok = bool(res) == (not blk.is_initialized())
         if not ok:
@@ -397,6 +409,131 @@ def run_prog(cfg, path, acc):
                         tuple(sorted((a.name, tuple(sorted(x.name for x in a.oconnections)))
                                      for a in circuit.getblocks()))))
         acc.transition(s0, path, s1)
+    return viol
+
+
+# ------------------------------------------------------------------ shortcut users
+
+SHORTCUT_USERS = [('not',), ('not', 'not'), ('and',), ('not', 'and'), ('func-group',), ('filter',),
+                  ('not', 'filter'), ('not-of-not',), ('not', 'not-of-not'), ('and', 'not-of-not')]
+
+
+def run_shortcut(cfg, path, acc):
+    """
+    The shortcut '_not_x' is referenced only by the given kinds of users.  Checked generically:
+    the inverter exists exactly once and is wired x -> _not_x -> users; for ALL blocks A, B:
+    B in A.oconnections <=> A in B.iconnections <=> A feeds an input of B; get_conf() of every
+    block works and names the same inputs; outputs after the start are what the functions say.
+    """
+    viol = []
+    with Sim() as sim:
+        circuit = sim.circuit
+        users = {}
+
+        def mk_target():
+            return edzed.Input('x', initdef=True)
+
+        def mk_users():
+            for i, u in enumerate(cfg['users']):
+                name = f'u{i}'
+                if u == 'not':
+                    users[name] = (edzed.Not(name).connect('_not_x'), lambda x: x)
+                elif u == 'and':
+                    users[name] = (edzed.And(name).connect('_not_x', True), lambda x: not x)
+                elif u == 'func-group':
+                    users[name] = (edzed.FuncBlock(name, func=lambda g: list(g)).connect(g=['_not_x', 'x']),
+                                   lambda x: [not x, x])
+                elif u == 'filter':
+                    flt = edzed.IfOutput('_not_x')
+                    users[name] = (edzed.Input(name, initdef=0, on_output=edzed.Event('sink', efilter=flt)), None)
+                    users[name][0].vt_filter = flt
+                elif u == 'not-of-not':
+                    # a shortcut to the inverse of an explicit Not block which itself uses the shortcut
+                    inner = edzed.Not(name + 'i').connect('_not_x')
+                    users[name + 'i'] = (inner, lambda x: x)
+                    users[name] = (edzed.Or(name).connect(f'_not_{name}i'), lambda x: not x)
+        try:
+            edzed.Input('sink', initdef=0)
+            if cfg['order'] == 'target-first':
+                x = mk_target()
+                mk_users()
+            else:
+                mk_users()
+                x = mk_target()
+            if path == 'explicit':
+                circuit.finalize()
+        except Exception as err:    # pylint: disable=broad-except
+            return [('valid-program-rejected', f"{cfg['users']}: {err!r}")]
+
+        def structure(label):
+            blocks = list(circuit.getblocks())
+            names = [b.name for b in blocks]
+            if names.count('_not_x') != 1:
+                viol.append(('inverter-count', f"{label}: blocks {sorted(names)}"))
+                return
+            inv = circuit.findblock('_not_x')
+            for a in blocks:
+                for b in blocks:
+                    feeds = isinstance(b, edzed.CBlock) and any(
+                        a is i for v in b.inputs.values() for i in (v if isinstance(v, tuple) else (v,)))
+                    in_o = b in getattr(a, 'oconnections', ())
+                    in_i = a in getattr(b, 'iconnections', ())
+                    if not feeds == in_o == in_i:
+                        viol.append(('biconditional', f"{label}: {a.name} -> {b.name}: feeds an input "
+                                     f"{feeds}, in oconnections {in_o}, in iconnections {in_i}"))
+            if not (x in inv.iconnections and inv in x.oconnections):
+                viol.append(('inverter-wiring', f"{label}: _not_x inputs {inv.inputs}"))
+            for b in blocks:
+                try:
+                    conf = b.get_conf()
+                except Exception as err:    # pylint: disable=broad-except
+                    viol.append(('get_conf', f"{label}: {b.name}.get_conf() raised {err!r}"))
+                    continue
+                if isinstance(b, edzed.CBlock):
+                    exp = {k: (tuple(i.name for i in v) if isinstance(v, tuple) else v.name)
+                           for k, v in b.inputs.items()}
+                    if conf.get('inputs') != exp:
+                        viol.append(('get_conf', f"{label}: {b.name}: get_conf inputs {conf.get('inputs')}, "
+                                     f"inputs {exp}"))
+            for name, (blk, _f) in users.items():
+                if isinstance(blk, edzed.CBlock) and not any(
+                        isinstance(i, edzed.Block) for v in blk.inputs.values()
+                        for i in (v if isinstance(v, tuple) else (v,))):
+                    viol.append(('input-resolution', f"{label}: {name} inputs {blk.inputs}"))
+        if path == 'explicit':
+            structure('after Circuit.finalize()')
+            if viol:
+                return viol
+
+        async def driver():
+            task = asyncio.create_task(circuit.run_forever())
+            try:
+                await circuit.wait_init()
+            except Exception as err:    # pylint: disable=broad-except
+                viol.append(('valid-program-rejected', f"path {path}: start failed: {err!r} / {circuit.error!r}"))
+                await stop(circuit)
+                return
+            structure(f'running ({path} finalisation)')
+            for xv in (True, False, True):
+                edzed.ExtEvent(x).send(xv)
+                await sim.loop.idle()
+                if circuit.error is not None:
+                    viol.append(('simulation-died', repr(circuit.error)))
+                    break
+                inv = circuit.findblock('_not_x')
+                if inv.output != (not xv):
+                    viol.append(('inverter-output', f"x={xv}: _not_x outputs {inv.output!r}"))
+                for name, (blk, f) in users.items():
+                    if f is not None and blk.output != f(xv):
+                        viol.append(('user-output', f"x={xv}: {name} outputs {blk.output!r}, expected {f(xv)!r}"))
+                    if f is None and bool(blk.vt_filter({'value': 1})) != (not xv):
+                        viol.append(('filter-control-block', f"x={xv}: IfOutput('_not_x') -> {blk.vt_filter({'value': 1})!r}"))
+            await stop(circuit)
+            del task
+        sim.run(driver())
+        s0 = acc.state(('shortcut', cfg['users'], cfg['order']))
+        acc.transition(s0, path, acc.state(('shortcut-finalized', cfg['users'], cfg['order'],
+                                            tuple(sorted(n for n in circuit._blocks if n.startswith('_'))))))
     return viol
 
 
@@ -764,6 +901,13 @@ def run_config(cfg):
                 acc.violation(f"C15:{sig}", msg, cfg=cfg, detail={'path': path})
         acc.sample({'program': {'c0': cfg['c0'], 'c1': C1_SPECS[cfg['c1']], 'c2': C2_SPECS[cfg['c2']],
                                 'events': cfg['ev']}}, limit=3)
+    elif cfg['kind'] == 'shortcut':
+        for path in ('explicit', 'implicit'):
+            viol = run_shortcut(cfg, path, acc)
+            acc.execs += 1
+            acc.distinct += 1
+            for sig, msg in viol[:3]:
+                acc.violation(f"C15:{sig}:shortcut", msg, cfg=cfg, detail={'path': path})
     elif cfg['kind'] == 'invalid':
         for sig, msg in run_invalid(cfg, acc):
             acc.violation(f"C15:{sig}", msg, cfg=cfg)
